@@ -277,9 +277,39 @@ func (x *fnExec) bindResults(vars map[types.Object]Val, fn *ssa.Function, cl *Cl
 func clauseTags(c *Contract, cl *Clause) []string {
 	var own []string
 	for _, t := range cl.Tags {
-		if t != "TRUSTED" {
+		if t != "TRUSTED" && t != "LEMMA" {
 			own = append(own, t)
 		}
+	}
+	if hasTag(cl.Tags, "LEMMA") {
+		// a lemma serves the postconditions listed after it: it carries their properties too
+		seen := map[string]bool{}
+		for _, t := range own {
+			seen[t] = true
+		}
+		after := false
+		for _, e := range c.Ensures {
+			if e == cl {
+				after = true
+				continue
+			}
+			if !after || hasTag(e.Tags, "LEMMA") && len(e.Tags) == 1 {
+				continue
+			}
+			for _, t := range e.Tags {
+				if t != "TRUSTED" && t != "LEMMA" && t != "-" && !seen[t] {
+					seen[t] = true
+					own = append(own, t)
+				}
+			}
+		}
+		if len(own) == 0 {
+			own = append(own, c.Tags...)
+		}
+		if len(own) == 0 {
+			own = c.allClauseTags()
+		}
+		return own
 	}
 	if len(own) > 0 {
 		return own
@@ -297,7 +327,7 @@ func (c *Contract) allClauseTags() []string {
 	var out []string
 	add := func(ts []string) {
 		for _, t := range ts {
-			if t != "TRUSTED" && t != "-" && !seen[t] {
+			if t != "TRUSTED" && t != "LEMMA" && t != "-" && !seen[t] {
 				seen[t] = true
 				out = append(out, t)
 			}
